@@ -96,9 +96,8 @@ class WriterCheck:
         self.buf_size = buf_size
         self.ob = Oblig()
 
-    def new_writer(self, k):
-        end = 0 if k is None else self.buf_size - k
-        return [Arr(self.buf_size, I(FILL, 'u8')), I(end, 'usize'), Opaque('stdout')], end
+    def new_writer(self, k, m=None):
+        return self.prog.fresh_writer(m if m is not None else Machine(self.prog), k, FILL)
 
     # ---- script values
     def make_values(self, script, m):
@@ -220,7 +219,7 @@ class WriterCheck:
         def run(m):
             vals = self.make_values(script, m)
             nref = len(m.trace)
-            w, end0 = self.new_writer(k)
+            w, end0 = self.new_writer(k, m)
             env = WriteEnv()
             m.env = env
             slot = [w]
